@@ -9,14 +9,18 @@ use crate::driver::AnyFlow;
 use crate::engine::{guarded, show, Report, Tier, Violation};
 use crate::refmodel::framing::{after, decide, After, Framing};
 
-pub const RULE: &str = "full product, no pruning: request method (9) x status 100..=999 (900) x response version {1.0,1.1} x Content-Length {absent,0,7,18446744073709551615,abc,-1} x Transfer-Encoding {absent,chunked,Chunked,CHUNKED,'gzip, chunked','gzip,chunked',gzip,identity} = 777 600 cells x entry points {Flow::try_response+proceed+body_mode, Call::try_response+into_body}; each cell also reads a probe body with trailing bytes to confirm the decided framing is the one applied. distinct = distinct (method, status class, version, CL, TE, decision) cells";
+pub const RULE: &str = "full product, no pruning: request method (9) x status 100..=999 (900) x response version {1.0,1.1} x Content-Length {absent,0,7,18446744073709551615,abc,-1} x Transfer-Encoding {absent,chunked,Chunked,CHUNKED,'gzip, chunked','gzip,chunked',gzip,identity,'gzip,' (empty list element),'' (empty value),chunk} = 1 069 200 cells (every third status additionally carries empty-valued fields ahead of the framing headers) x entry points {Flow::try_response+proceed+body_mode, Call::try_response+into_body}; each cell also reads a probe body with trailing bytes to confirm the decided framing is the one applied. distinct = distinct (method, status class, version, CL, TE, decision) cells";
 
 const METHODS: [&str; 9] = ["GET", "HEAD", "POST", "PUT", "DELETE", "CONNECT", "OPTIONS", "TRACE", "PATCH"];
 const CLS: [Option<&str>; 6] = [None, Some("0"), Some("7"), Some("18446744073709551615"), Some("abc"), Some("-1")];
-const TES: [Option<&str>; 8] = [None, Some("chunked"), Some("Chunked"), Some("CHUNKED"), Some("gzip, chunked"), Some("gzip,chunked"), Some("gzip"), Some("identity")];
+const TES: [Option<&str>; 11] = [None, Some("chunked"), Some("Chunked"), Some("CHUNKED"), Some("gzip, chunked"), Some("gzip,chunked"), Some("gzip"), Some("identity"), Some("gzip,"), Some(""), Some("chunk")];
 
 fn head_bytes(status: u16, v11: bool, cl: Option<&str>, te: Option<&str>) -> Vec<u8> {
     let mut h = format!("HTTP/1.{} {} X\r\n", if v11 { 1 } else { 0 }, status);
+    // an empty-valued field ahead of the framing headers (must not hide them): on every third status
+    if status % 3 == 0 {
+        h.push_str("X-Empty:\r\nServer: \r\n");
+    }
     if let Some(c) = cl {
         h.push_str(&format!("Content-Length: {}\r\n", c));
     }
